@@ -31,7 +31,8 @@ SCOPES = {
     "C11": [("xnum", ALLM, ALLM), ("modeldisc", ALLM, r"(calc_grad|calc_bc_grad|interp.*|rhs|calc_bc)$")],
     "C12": [],
     # C13: state that depends on what the reflection / rescaling changes (geometry, dir, data); not the name dispatchers
-    "C13": [("modeldisc", ALLM, ALLM), ("xnum", ALLM, ALLM), (r"modelphy\..*", ALLM, r"(bc_.*|numflux_.*|timestep|cons2prim|prim2cons|_[A-Za-z].*)$")],
+    "C13": [("modeldisc", ALLM, ALLM), ("xnum", ALLM, ALLM), (r"modelphy\..*", ALLM, r"(bc_.*|numflux_.*|timestep|cons2prim|prim2cons|_[A-Za-z].*)$"),
+            ("integration", ALLM, r"(step|add_res|calcrhs|solve_implicit)$"), ("field", ALLM, ALLM), ("mesh", ALLM, ALLM), ("meshbase", ALLM, ALLM)],
     # C14: on a uniform mesh stale *geometry* is still uniform (translation invariant); index tables and operator state matter
     "C14": [("modeldisc", ALLM, ALLM), ("mesh2d", ALLM, ALLM)],
     # C15: the statement's reconstructions are extrapol2d1 / extrapol2dk and their 1D counterparts
@@ -519,6 +520,36 @@ def dtype_narrow(check):
         check.ok("DTYPE-NARROW", "%d functions in scope" % n, "no conversion to single / half precision", nontrivial=False)
 
 
+def abs_round(check):
+    """ABS-ROUND: `round(x, n)` / `np.round(x, n)` / `np.around(x, n)` puts x on an ABSOLUTE grid of 10^-n.  Times, lengths,
+    cell sizes, slopes and states are dimensional: at unit scale the rounding only trims the last bits, at small scales
+    (a micrometre mesh, a time step of 1e-9, a change of units) it is a relative error of 10^-n / |x| -- the results
+    depend on the units the problem is written in, and "exactly" / "to round-off" no longer holds.  (`int(round(x))`, no
+    digits, is the rounding of a count and is not reported.)"""
+    import ast
+    pid, proj = check.pid, check.proj
+    n = bad = 0
+    for f in proj.all_functions():
+        if not in_scope(pid, f) and not (f.name == "__init__" and f.cls is not None and any(in_scope(pid, g) for g in f.cls.methods.values() if g.name != "__init__")):
+            continue
+        n += 1
+        for c in ast.walk(f.node):
+            if not isinstance(c, ast.Call):
+                continue
+            fn = c.func
+            nm = fn.id if isinstance(fn, ast.Name) else (fn.attr if isinstance(fn, ast.Attribute) and isinstance(fn.value, ast.Name) and fn.value.id in ("np", "numpy") else None)
+            if nm not in ("round", "around", "round_"):
+                continue
+            digits = c.args[1] if len(c.args) > 1 else next((k.value for k in c.keywords if k.arg in ("ndigits", "decimals")), None)
+            if digits is None or (isinstance(digits, ast.Constant) and digits.value in (0, None)):
+                continue
+            bad += 1
+            check.violation("ABS-ROUND", f.qualname, "`%s` (line %d) rounds to a fixed number of decimals: an absolute grid, i.e. a relative error of 10^-n/|x| that grows as the quantity gets small (micro-scale meshes, small time steps, another system of units) -- the result is no longer the statement's formula to round-off, and it changes under a change of units" % (ast.unparse(c)[:60], c.lineno),
+                            "%s:%d" % (f.module.relpath, c.lineno), key="abs-round-%s" % f.name)
+    if n and not bad:
+        check.ok("ABS-ROUND", "%d functions in scope" % n, "no rounding to a fixed number of decimals", nontrivial=False)
+
+
 def unparse_(n):
     import ast
     return ast.unparse(n)
@@ -579,6 +610,7 @@ def run(check):
     check.guarded("CTOR-PARAM", "constructors", lambda: ctor_params(check))
     check.guarded("DTYPE-FOLLOW", "flux kernels", lambda: dtype_rule(check))
     check.guarded("DTYPE-NARROW", "scope of %s" % check.pid, lambda: dtype_narrow(check))
+    check.guarded("ABS-ROUND", "scope of %s" % check.pid, lambda: abs_round(check))
     check.guarded("STATE-MEMO", "scope of %s" % check.pid, lambda: state_memo(check))
     check.guarded("ALIAS", "scope of %s" % check.pid, lambda: alias_rules(check))
     check.guarded("KERNEL-POINTWISE", "kernels of %s" % check.pid, lambda: kernel_pointwise(check))
